@@ -40,6 +40,7 @@ namespace primesieve {
 
 class PrimeGenerator : public Erat
 {
+  PRIMESIEVE_VERIF_FRIEND
 public:
   PrimeGenerator(uint64_t start, uint64_t stop);
   static uint64_t maxCachedPrime();
